@@ -8,6 +8,8 @@ mod nums;
 mod obs;
 mod oracles;
 #[cfg(feature = "std")]
+mod clock;
+#[cfg(feature = "std")]
 mod poll;
 mod scan;
 #[cfg(feature = "with_serde")]
@@ -361,6 +363,8 @@ fn main() {
         }
         #[cfg(feature = "std")]
         "pp-random" => { let (h, l) = if tier == "thorough" { (60_000, 80) } else { (6_000, 60) }; poll::random_histories(&mut out, seed, h, l, strict); }
+        #[cfg(feature = "std")]
+        "pp-realclock" => { let (h, l) = if tier == "thorough" { (3_000, 60) } else { (300, 50) }; poll::realclock_histories(&mut out, seed, h, l); }
         #[cfg(feature = "std")]
         "pp-sentences" => { let (u, r, l) = if tier == "thorough" { (5, 4, 60_000) } else { (3, 4, 3_000) }; poll::sentences(&mut out, seed, u, r, l); }
         #[cfg(feature = "std")]
